@@ -949,6 +949,51 @@ func genDecSysCases(r *Rng, n int, w *bufio.Writer) {
 	}
 	emitPairs("psetv0", sd.psetV0B64)
 	emitPairs("psetv2", sd.psetV2B64)
+	// (c) a minimal flag-1 transaction cut right after each count or length field, that field announcing 1000 .. 2^31-1
+	// items or bytes: memory reserved from a count before the data is there shows as allocation out of proportion
+	{
+		head := append(append([]byte{2, 0, 0, 0, 1, 1}, make([]byte, 32)...), 0, 0, 0, 0)              // version, flag, one input, outpoint
+		afterScript := []byte{0xff, 0xff, 0xff, 0xff}                                                  // sequence
+		out := append(append(append([]byte{1}, make([]byte, 32)...), 1, 0, 0, 0, 0, 0, 0, 0, 9), 0, 0) // asset, value, null nonce, empty script
+		lock := []byte{0, 0, 0, 0}
+		vals := []uint64{1000, 0xffff, 0x10000, 1000000, 4000000, 4000001, 0x7fffffff}
+		big := func(v uint64) []byte {
+			if v <= 0xffff {
+				return []byte{0xfd, byte(v), byte(v >> 8)}
+			}
+			return []byte{0xfe, byte(v), byte(v >> 8), byte(v >> 16), byte(v >> 24)}
+		}
+		cat := func(parts ...[]byte) []byte {
+			var o []byte
+			for _, p := range parts {
+				o = append(o, p...)
+			}
+			return o
+		}
+		for _, v := range vals {
+			b := big(v)
+			cuts := [][]byte{
+				cat([]byte{2, 0, 0, 0, 1}, b),        // input count
+				cat(head, b),                         // script length
+				cat(head, []byte{0}, afterScript, b), // output count
+				cat(head, []byte{0}, afterScript, []byte{1}, out[:len(out)-1], b),                 // output script length
+				cat(head, []byte{0}, afterScript, []byte{1}, out, lock, b),                        // issuance range proof length
+				cat(head, []byte{0}, afterScript, []byte{1}, out, lock, []byte{0}, b),             // inflation range proof length
+				cat(head, []byte{0}, afterScript, []byte{1}, out, lock, []byte{0, 0}, b),          // witness item count
+				cat(head, []byte{0}, afterScript, []byte{1}, out, lock, []byte{0, 0, 1}, b),       // witness item length
+				cat(head, []byte{0}, afterScript, []byte{1}, out, lock, []byte{0, 0, 0}, b),       // peg-in witness item count
+				cat(head, []byte{0}, afterScript, []byte{1}, out, lock, []byte{0, 0, 0, 1}, b),    // peg-in witness item length
+				cat(head, []byte{0}, afterScript, []byte{1}, out, lock, []byte{0, 0, 0, 0}, b),    // surjection proof length
+				cat(head, []byte{0}, afterScript, []byte{1}, out, lock, []byte{0, 0, 0, 0, 0}, b), // range proof length
+			}
+			for _, c := range cuts {
+				for _, tail := range [][]byte{nil, {0}, make([]byte, 40)} {
+					fmt.Fprintf(w, "decsys tx 13 %s\n", hx(cat(c, tail)))
+					fmt.Fprintf(w, "decsys txhex 13 %s\n", hx(cat(c, tail)))
+				}
+			}
+		}
+	}
 	for _, net := range nets {
 		for ver := 0; ver <= 1; ver++ {
 			for l := 0; l <= 75; l++ {
